@@ -17,6 +17,7 @@ SPEC = {'id': 'C10',
               (_P, 'Snowflake.Amp.C10.layout_decodes'),
               (_P, 'Snowflake.Amp.C10.roundtrip'),
               (_P, 'Snowflake.Amp.C10.armor_injective'),
+              (_P, 'Snowflake.Amp.C10.encoder_writes_unambiguous'),
               (_P, 'Snowflake.Amp.C10.whitespace_invariant'),
               (_P, 'Snowflake.Amp.C10.ws_filler_neutral'),
               (_P, 'Snowflake.Amp.C10.ws_trailer_neutral'),
